@@ -9,11 +9,16 @@
     working on a real file; the os calls of file.go go through an overlay shim that parks the
     reloader before each call, time is a synctest bubble's clock.  The recorded traces are
     validated against FileTableTrace.tla (conformance with the as-is design + the predicates).
+(B2) pattern B for the pure tables: TLC enumerates the rows of TableLookup.tla (static, identity,
+    email_with_domain, email_localpart(_optional), regexp, chain, the syntax of table.file), checks the
+    documented rule against the property predicates, the rows are run through the real modules and
+    TableLookupTrace.tla evaluates the predicates on what they answered.
 """
 import json
 import os
 
 import vlib
+import vtable
 
 EXT = "X01"
 
@@ -26,6 +31,130 @@ DEV_PREDS = {
     "OldMtimeIgnored": {"StaleTable", "ReloadEventIgnored"},
 }
 ALL_DEVS = sorted(DEV_PREDS)
+# deviations of the pure tables (TableLookup.tla)
+ROW_DEVS = ["ExpandDirectiveName", "IndentedCommentIsKey", "LocalpartNotUnquoted", "NoReplNoMatch"]
+ALL_TABS = ["static", "identity", "ewd", "localpart", "regexp", "chain", "file"]
+
+ROW_CFG = """SPECIFICATION %(spec)s
+CONSTANTS
+  Tabs = %(tabs)s
+  MaxSteps = %(maxsteps)d
+  Devs = %(devs)s
+  Gen = %(gen)s
+%(tail)s
+"""
+
+
+def row_cfg(spec="Spec", tabs=ALL_TABS, maxsteps=2, devs=(), gen=False, tail=""):
+    return ROW_CFG % dict(spec=spec, tabs=tla_set(tabs), maxsteps=maxsteps, devs=tla_set(devs),
+                          gen="TRUE" if gen else "FALSE", tail=tail)
+
+
+def run_rows(ctx, replay_obj, binary, findings):
+    """pattern B: the pure lookup tables and the syntax of table.file"""
+    thorough = ctx.tier == "thorough"
+    by_dev = {f["match"]["dev"]: f for f in findings if f["match"]["dev"] in ROW_DEVS}
+    maxsteps = 3 if thorough else 2
+    if replay_obj:
+        rows = [replay_obj["row"]]
+        rows[0]["id"] = 1
+    else:
+        r = ctx.tlc_expect_ok("TableLookup", None, name="rows", workers=4, timeout=1200,
+                              cfg_text=row_cfg(maxsteps=maxsteps, gen=True,
+                                               tail="INVARIANTS RuleSatisfiesProp\nCONSTRAINT Emit\nCHECK_DEADLOCK FALSE"))
+        rows = vtable.rows_from(r)
+        if len(rows) != r["distinct"]:
+            raise vlib.Infra("TLC printed %d distinct rows for %d states" % (len(rows), r["distinct"]))
+        ctx.cov["row_states"] = r["distinct"]
+        ctx.log("TLC: %d lookup rows; the documented rule satisfies the predicates on all, %.1fs" % (r["distinct"], r["wall"]))
+        for dev in ROW_DEVS:
+            ra = ctx.tlc("TableLookup", None, name="rows-asis-" + dev, workers=1, timeout=300,
+                         cfg_text=row_cfg(maxsteps=1, devs=[dev], tail="INVARIANTS AsIsSatisfiesProp\nCHECK_DEADLOCK FALSE"))
+            if ra["invariant"] != "AsIsSatisfiesProp":
+                raise vlib.Infra("as-is lookup model (%s) does not violate the property: predicates vacuous? (%s)" % (dev, ra["error"]))
+    by_id = {row["id"]: row for row in rows}
+    items = [{"id": row["id"], "in": row["in"]} for row in rows]
+    events = ctx.run_shards(binary, items, test="TestRows", name="rows-replay", shards=8)
+    events = [e for e in events if e["e"] == "Row"]
+    if len(events) != len(rows):
+        raise vlib.Infra("harness answered %d of %d rows" % (len(events), len(rows)))
+    ev_by_t = {e["t"]: e for e in events}
+
+    selftest = {}
+    if not replay_obj:
+        # binding self-test: forged answers must be rejected and not pass as a known deviation
+        def forge(t, pred, chg):
+            for e in events:
+                if pred(by_id[e["t"]]):
+                    f = json.loads(json.dumps(e))
+                    f["t"] = t
+                    f["out"] = dict(by_id[e["t"]]["exp"])
+                    chg(f["out"])
+                    return f
+            raise vlib.Infra("binding self-test: no base row")
+        def drop_first(o):
+            o["multi"] = o["multi"][1:]
+        def flip_ok(o):
+            o["ok"] = not o["ok"]
+        forged = [
+            forge(900001, lambda row: row["in"]["tab"] == "static" and len(row["exp"]["multi"]) == 2, drop_first),
+            forge(900002, lambda row: row["in"]["tab"] == "chain" and len(row["in"]["steps"]) == 2 and row["exp"]["ok"]
+                  and all(s["c"] in ("S1", "S2", "I") for s in row["in"]["steps"]), flip_ok),
+        ]
+        selftest = {900001: "value dropped", 900002: "found flag flipped"}
+        events = events + forged
+    open_row_devs = sorted(by_dev)
+    tcfg = ROW_CFG % dict(spec="TSpec", tabs="{}", maxsteps=maxsteps, devs="{}", gen="FALSE",
+                          tail="  OpenDevs = %s\nCHECK_DEADLOCK FALSE\nPOSTCONDITION Post" % tla_set(open_row_devs))
+    # CONSTANTS block: OpenDevs must sit inside it
+    tcfg = tcfg.replace("  Gen = FALSE\n  OpenDevs", "  Gen = FALSE\n  OpenDevs")
+    verdicts, accepted = vtable.validate_rows(ctx, "TableLookupTrace", tcfg, events, name="rows-trace", batch=20000, par=4)
+    for t, what in selftest.items():
+        v = verdicts.get(t)
+        if not v or not v["viol"] or v["devs"]:
+            raise vlib.Infra("binding self-test failed: forged row (%s) was accepted or explained by a deviation" % what)
+        del verdicts[t]
+    drift = 0
+    known_rows = {}
+    for t, v in sorted(verdicts.items()):
+        row, ev = by_id[t], ev_by_t[t]
+        devsets = sorted((sorted(d) for d in v["devs"]), key=lambda d: (len(d), d))
+        minimal = devsets[0] if devsets else None
+        explained = minimal is not None
+        if explained and v["viol"]:
+            allowed = set()
+            for d in minimal:
+                allowed |= set(by_dev[d]["match"].get("predicates", []))
+            explained = set(v["viol"]) <= allowed
+        if v["viol"] and not explained:
+            what = "table %s answers against %s: in=%s out=%s" % (
+                row["in"]["tab"], ",".join(sorted(v["viol"])), json.dumps(row["in"], sort_keys=True)[:300],
+                json.dumps(ev["out"], sort_keys=True)[:300])
+            ctx.violation(what, {"property": EXT, "row": row, "out": ev["out"], "violated": sorted(v["viol"]),
+                                 "how": "bin/check X01 --replay <this file>"})
+        elif explained:
+            for d in minimal:
+                f = by_dev[d]
+                ctx.known(f["id"], f["what"])
+                known_rows[f["id"]] = known_rows.get(f["id"], 0) + 1
+        else:
+            drift += 1
+            if drift <= 10:
+                print("DRIFT property=%s row=%d in=%s out=%s expected=%s" % (
+                    EXT, t, json.dumps(row["in"], sort_keys=True), json.dumps(ev["out"]), json.dumps(row.get("exp"))))
+    ctx.cov["rows_run_through_real_tables"] = len(rows)
+    ctx.cov["rows_accepted"] = accepted
+    ctx.cov["rows_drift"] = drift
+    ctx.cov["rows_explained_by_finding"] = known_rows
+    ctx.cov["rows_by_table"] = {tab: sum(1 for row in rows if row["in"]["tab"] == tab) for tab in ALL_TABS}
+    if selftest:
+        ctx.cov["rows_binding_selftest"] = "forged rows rejected: " + "; ".join(selftest.values())
+    for tab in ("regexp", "chain", "file"):
+        pick = [row for row in rows if row["in"]["tab"] == tab]
+        if pick:
+            row = pick[len(pick) // 2]
+            ctx.cov["samples"].append({"row": row, "out": ev_by_t[row["id"]]["out"]})
+    return accepted
 
 
 def tla_set(xs, quote=True):
@@ -49,6 +178,8 @@ def open_findings():
     p = os.path.join(vlib.VERIF, "extensions", "findings.json")
     if not os.path.exists(p):
         return []
+    if os.environ.get("VERIF_X01_ASSUME_FIXED"):
+        return []      # drills: judge the tree as if every finding had been repaired (nothing is suppressed)
     return [f for f in json.load(open(p)).get("findings", [])
             if f.get("ext") == EXT and f.get("status", "open") == "open"]
 
@@ -214,11 +345,16 @@ def generate(ctx, thorough):
 def run(ctx, replay):
     thorough = ctx.tier == "thorough"
     findings = open_findings()
-    open_devs = sorted(set(f["match"]["dev"] for f in findings))
+    open_devs = sorted(set(f["match"]["dev"] for f in findings) & set(ALL_DEVS))
     by_dev = {f["match"]["dev"]: f for f in findings}
 
     if replay:
         obj = json.load(open(replay))
+        if "row" in obj:
+            binary = ctx.build_harness("tablecheck", overlay=make_overlay(ctx))
+            run_rows(ctx, obj, binary, findings)
+            announce(ctx)
+            return
         behs = [obj["behaviour"]]
     else:
         from concurrent.futures import ThreadPoolExecutor
@@ -234,6 +370,9 @@ def run(ctx, replay):
 
     # ---- replay on the real module -------------------------------------------------------------
     binary = ctx.build_harness("tablecheck", overlay=make_overlay(ctx))
+    rows_ok = 0
+    if not replay:
+        rows_ok = run_rows(ctx, None, binary, findings)
     events = ctx.run_shards(binary, behs)
     by_id = {b["id"]: b for b in behs}
 
@@ -307,6 +446,8 @@ def run(ctx, replay):
     if selftest:
         ctx.cov["binding_selftest"] = "corrupted-field and dropped-event traces rejected"
     ctx.cov["traces_validated_against_impl"] = ok
+    ctx.cov["behaviours_validated"] = ok
+    ctx.cov["traces_validated_against_impl"] = ok + rows_ok
     ctx.cov["drift_traces"] = drift
     ctx.cov["evaluations"] = len(behs)
     ctx.cov["distinct_nontrivial"] = sum(1 for b in behs if nontrivial(b))
@@ -329,11 +470,15 @@ def run(ctx, replay):
         "EACCES is injected by the shim (the sandbox runs as root); ELOOP/EISDIR/ENOENT are produced by the real file system",
         "TLC 1.8.0, CommunityModules Json reader",
     ]
+    announce(ctx)
+
+
+def announce(ctx):
+    """extension findings are announced as EXT-FINDING, not KNOWN-FINDING"""
     if ctx.known_seen:
-        # extension findings are announced as EXT-FINDING, not KNOWN-FINDING
-        for fid, what in ctx.known_seen:
+        for fid, what in sorted(ctx.known_seen):
             print("EXT-FINDING: ext=%s %s %s" % (EXT, fid, what))
-        ctx.cov["ext_findings_seen"] = [k for k, _ in ctx.known_seen]
+        ctx.cov["ext_findings_seen"] = sorted(k for k, _ in ctx.known_seen)
         ctx.known_seen = []
 
 
